@@ -1,4 +1,5 @@
 import HH.Generated.SourceFacts
+import HH.Props.FactsLib
 /-!
 # C18 (source half) — no allocation-capable construct in library code; C15 (source half) — no
 process-global state
@@ -13,14 +14,26 @@ theorem no_alloc_names : (facts.all fun f => !(f.kind == "alloc" && !f.test)) = 
 /-- no `extern crate` (in particular no `extern crate alloc`) -/
 theorem no_extern_crate : (facts.all fun f => !(f.kind == "extern_crate")) = true := by decide +kernel
 
-/-- the only paths into `std` are the io::Write adapter of macros.rs -/
-def allowedStdPaths : List String := ["::std::io::Write", "::std::io::Result"]
-theorem std_paths : (facts.all fun f => !(f.kind == "std_path" && !f.test) || allowedStdPaths.contains f.detail) = true := by
+/-- paths into `std` stay inside (a) the modules of `std` that are re-exports of `core` (which cannot
+allocate: there is no allocator below `alloc`), and (b) the handful of `std::io` items an `io::Write`
+adapter needs (`Write`, `Result`, `IoSlice`, `IoSliceMut`, `ErrorKind`).  Everything else in `std` — `env`,
+`fs`, `vec`, `string`, `collections`, `boxed`, `rc`, `sync`, `thread`, `io::Error::new/other`, `io::BufWriter`,
+… — may allocate and is rejected. -/
+def coreMirrors : List String :=
+  ["fmt", "hash", "mem", "ops", "cmp", "convert", "arch", "marker", "default", "clone", "num", "option", "result",
+   "hint", "array", "ascii", "char", "u8", "u16", "u32", "u64", "u128", "usize", "i8", "i16", "i32", "i64", "i128", "isize",
+   "is_x86_feature_detected", "debug_assert", "assert", "write", "writeln", "cfg", "compile_error", "concat", "stringify"]
+def ioItems : List String := ["Write", "Result", "IoSlice", "IoSliceMut", "ErrorKind"]
+def stdPathOk (p : String) : Bool :=
+  match (HH.FactsLib.segsOf p).filter (· != "") with
+  | "std" :: "io" :: item :: rest => ioItems.contains item && (rest.isEmpty || item == "Write" || item == "ErrorKind")
+  | "std" :: m :: _ => coreMirrors.contains m
+  | _ => false
+theorem std_paths : (facts.all fun f => !(f.kind == "std_path" && !f.test) || stdPathOk f.detail) = true := by
   decide +kernel
 
-/-- items gated on `feature = "std"` live only in these files (io::Write impls, run-time detection) -/
-def stdGateFiles : List String := ["lib.rs", "macros.rs", "builder.rs", "x86/sse.rs", "x86/avx.rs"]
-theorem std_gates : (facts.all fun f => !(f.kind == "std_gate") || stdGateFiles.contains f.file) = true := by decide +kernel
+example : stdPathOk "::std::io::Write" = true ∧ stdPathOk "::std::fmt::Arguments" = true ∧ stdPathOk "::std::io::IoSlice" = true ∧
+    stdPathOk "std::env::var" = false ∧ stdPathOk "::std::io::Error::other" = false ∧ stdPathOk "std::vec::Vec" = false := by decide +kernel
 
 end HH.C18
 
